@@ -19,6 +19,7 @@ from collections import Counter
 from codec import *  # noqa
 from derivelib import *  # noqa
 from values import gen_val, show
+import boundscorr
 
 PID = 'C06'
 CFG = 'std-loose'        # derive_harness is built without de_strict_order
@@ -304,6 +305,23 @@ def run(tier, seed, t0):
     pf, pinfo = findings_probe()
     failures += pf
     stats.update(pinfo)
+    # ---- C06_bounds: where-clause inference on generic items, observed through trait resolution (lib/boundscorr.py);
+    #      the theorems about the BorshSchema inner structs it relies on are in Properties/C08gen.v
+    coq_gen = coq_property('C08gen')
+    if not coq_gen['ok']:
+        disagreements.append({'what': 'Properties/C08gen.v: ' + '; '.join(coq_gen['problems'])})
+    stats['C08gen_theorems'] = coq_gen['theorems']
+    for s in range(par['seeds']):
+        bev, bdis, bfails = boundscorr.run_stage(driver, seed + 1000 * s, tier)
+        disagreements += bdis
+        failures += bfails
+        stats['evaluations'] += bev['bounds_stats'].get('evaluations', 0)
+        if s == 0:
+            stats.update(bev)
+        else:
+            stats['bounds_items'] += bev['bounds_items']
+            for k_, v_ in bev['bounds_stats'].items():
+                stats['bounds_stats'][k_] = stats['bounds_stats'].get(k_, 0) + v_
     stats['result_classes'] = dict(classes)
     stats['distinct_nontrivial'] = len(distinct)
     stats['rule'] = ('items from gen/items.py (fixed coverage part: named/tuple structs with 0..8 fields, unit struct, enums of 1..3 variants x '
@@ -337,7 +355,9 @@ def run(tier, seed, t0):
                     level_note='theorems about the Gallina transcription of the macro (field walks, tag source, token splice re-parsed by a '
                                'precedence-climbing parser); that the emitted Rust compiles and behaves like the transcription is validated on '
                                'generated programs in this run, not proved; C06_enum holds outside the type-dependent-discriminant class (refuted inside)',
-                    extra_assumptions=['where clauses / trait-bound inference (generics.rs) are exercised by generic instantiations, not modelled'])
+                    extra_assumptions=['where-clause inference (generics.rs) is modelled on the parsed field attributes (coq/Generics.v: C06_bounds); the string '
+                                       'contents of bound(..)/schema(params = ..) are taken as already parsed predicates/entries; bounds are observed on the real '
+                                       'macro through trait resolution at marker types (no cargo expand), one probe per (derive, parameter, trait)'])
 
 
 def replay(path):
